@@ -565,6 +565,19 @@ def gen_script(rng, max_ops, profile):
                 if mode == 1 and rng.chance(1, 2):
                     t = ' %d' % rng.range(1, max(1, len(st.comps)) + 1)
                 lines.append('runjob %d %d%s' % (rng.below(njobs), mode, t))
+        elif choice == 'lockedrun':
+            # job runs nested in an explicit locked section, with modifications between and after them in the same section:
+            # the section's later stamps must still be newer than what the nested runs remembered
+            hs_ = [h for h in live_handles() if st.comps.get(h) and h not in st.pending_new]
+            if depth == 0 and njobs and hs_:
+                lines.append('lock')
+                for _ in range(rng.range(1, 3)):
+                    lines.append('runjob %d 0' % rng.below(njobs))
+                    for _ in range(rng.range(1, 3)):
+                        h = rng.pick(hs_)
+                        lines.append('%s #%d %d' % (rng.pick(['markdirty', 'getmut']), h, rng.pick(sorted(st.comps[h]))))
+                lines.append('unlock')
+                lines.append('runjob %d %d' % (rng.below(njobs), rng.below(2)))
         elif choice == 'update':
             if depth == 0:
                 lines.append(rng.pick(['update', 'update', 'emupdate']))
@@ -708,7 +721,7 @@ def profile(name):
             p['jobs'] = [{'reqs': [(0, 1)], 'check': []}, {'reqs': [(0, 0), (1, 3)], 'check': []}, {'reqs': [(0, 1), (2, 1)], 'check': []},
                          {'reqs': [(0, 1)], 'check': [0]}, {'reqs': [(1, 0), (0, 2)], 'check': [1]}]
         p['weights'] = {'create': 26, 'destroynow': 9, 'destroy': 3, 'assign': 8, 'remove': 6, 'set': 12, 'get': 6,
-                        'clone': 2, 'update': 6, 'cleararch': 1, 'lock': 0, 'unlock': 0, 'runjob': 22, 'burst': 0 if name == 'C04' else 7, 'bulk': 0 if name == 'C04' else 2, 'sparse': 3, 'runtyped': 8, 'jobdo': 4}
+                        'clone': 2, 'update': 6, 'cleararch': 1, 'lock': 0, 'unlock': 0, 'runjob': 22, 'burst': 0 if name == 'C04' else 7, 'bulk': 0 if name == 'C04' else 2, 'sparse': 3, 'runtyped': 8, 'jobdo': 4, 'lockedrun': 0 if name == 'C04' else 4}
     elif name == 'C13':
         p['deps'] = 100
         p['pals'] = [0, 1, 2, 3, 5, 8, 9]
